@@ -29,6 +29,7 @@ type CallAssert struct {
 	Callee  string // method or function name
 	Ordinal int    // 0 = every call
 	Clause  *Clause
+	Assume  bool // assumption instead of obligation
 }
 
 // Contract is the parsed `//@ func` block of one function.
@@ -340,6 +341,12 @@ func parseClause(c *Contract, text, loc string) error {
 			callee = callee[:i]
 		}
 		rest := strings.TrimSpace(text[strings.Index(text, fields[1])+len(fields[1]):])
+		isAssume := false
+		if strings.HasPrefix(rest, "assume") {
+			// an explicit environment assumption at a call (reported in the evidence, never silently)
+			isAssume = true
+			rest = "assert" + strings.TrimPrefix(rest, "assume")
+		}
 		m := reHead.FindStringSubmatch(rest)
 		if m == nil || m[1] != "assert" {
 			return fmt.Errorf("%s: bad call clause %q", loc, rest)
@@ -348,7 +355,7 @@ func parseClause(c *Contract, text, loc string) error {
 		if err != nil {
 			return err
 		}
-		c.Calls = append(c.Calls, &CallAssert{Callee: callee, Ordinal: ord, Clause: cl})
+		c.Calls = append(c.Calls, &CallAssert{Callee: callee, Ordinal: ord, Clause: cl, Assume: isAssume})
 	default:
 		m := reHead.FindStringSubmatch(text)
 		if m == nil {
